@@ -19,6 +19,52 @@ type c17ParseJob struct {
 	Lang   string   `json:"lang"`
 	Prefix []string `json:"prefix"` // first tokens; the job enumerates all completions up to the depth
 	Depth  int      `json:"depth"`
+	// Nest: instead of token strings the job parses the nesting family of the language: every atom wrapped in 0..4 pairs of
+	// parentheses inside every context, and every such text again inside every context (also wrapped 0..4 times)
+	Nest bool `json:"nest,omitempty"`
+}
+
+func c17NestFamily(lang string) []string {
+	var ctxs, atoms []string
+	switch lang {
+	case "PromQL":
+		ctxs = []string{"%s", "abs(%s)", "sum(%s)", "rate(%s)", "sum by (job) (%s)", "%s + 1", "ceil(%s) / 2", "avg_over_time(%s)", "clamp_max(%s, 3)", "-%s"}
+		atoms = []string{"m", `m{job="a"}`, "m[5m]", "rate(m[5m])", "1", "m + 2"}
+	case "Splunk QL":
+		ctxs = []string{"%s", "%s | stats count", "* | where %s", "* | eval z=%s", "NOT %s", "%s AND b=2", "* | stats count(eval(%s))", "* | eval z=if(%s, 1, 2)"}
+		atoms = []string{"a=1", "a", "1", "a>1 OR b=2", "if(a>1, 1, 2)", "a+1"}
+	case "SQL":
+		ctxs = []string{"select * from t where %s", "select %s from t", "select count(*) from t where %s and a=1", "select * from t where a=1 or %s"}
+		atoms = []string{"a=1", "a", "1", "a=1 and b=2"}
+	default:
+		return nil
+	}
+	wrap := func(t string, d int) string { return strings.Repeat("(", d) + t + strings.Repeat(")", d) }
+	seen := map[string]bool{}
+	var out []string
+	add := func(t string) {
+		if !seen[t] {
+			seen[t] = true
+			out = append(out, t)
+		}
+	}
+	for _, c1 := range ctxs {
+		for _, a := range atoms {
+			for d1 := 0; d1 <= 4; d1++ {
+				inner := strings.Replace(c1, "%s", wrap(a, d1), 1)
+				add(inner)
+				if lang == "SQL" || strings.Contains(inner, "|") {
+					continue // a whole statement / pipeline is not an operand
+				}
+				for _, c2 := range ctxs {
+					for d2 := 0; d2 <= 4; d2++ {
+						add(strings.Replace(c2, "%s", wrap(inner, d2), 1))
+					}
+				}
+			}
+		}
+	}
+	return out
 }
 
 func c17Alphabet(lang string) []string {
@@ -64,9 +110,15 @@ func c17ParseRun(w *kernel.Worker, j *c17ParseJob, rep *kernel.Report) (*Fail, e
 			rec(append(append([]string{}, cur...), t))
 		}
 	}
-	rec(j.Prefix)
+	chunk := 2000
+	if j.Nest {
+		texts = c17NestFamily(j.Lang)
+		chunk = 250
+		rep.Add("nesting_texts_"+strings.ReplaceAll(j.Lang, " ", ""), int64(len(texts)))
+	} else {
+		rec(j.Prefix)
+	}
 	fs := &Fails{}
-	const chunk = 2000
 	for i := 0; i < len(texts); i += chunk {
 		e := i + chunk
 		if e > len(texts) {
@@ -318,7 +370,7 @@ func C17() int {
 	if rep.Tier == "thorough" {
 		depth = map[string]int{"Splunk QL": 4, "SQL": 4, "PromQL": 5, "ES": 4}
 	}
-	rep.Rule = "(a) every token string up to a length (Splunk QL/SQL/ES-DSL 3, PromQL 4; one more in thorough) over per-language alphabets (40/25/24/18 tokens incl. lone quote, backslash, NUL, 0xFF, unbalanced " +
+	rep.Rule = "(a) the nesting family of Splunk QL, SQL and PromQL (every atom in 0..4 pairs of parentheses inside every context - function call, aggregation, binary operand, where/eval - and each such text again as the operand of every context) and every token string up to a length (Splunk QL/SQL/ES-DSL 3, PromQL 4; one more in thorough) over per-language alphabets (40/25/24/18 tokens incl. lone quote, backslash, NUL, 0xFF, unbalanced " +
 		"JSON) through the real parsers, twice: must return a plan or an error, must not kill the process or hang, and the two plans must be deeply equal. (b) 346 Splunk-QL queries generated from 68 command " +
 		"templates × fields {dense, sparse, absent, mixed-type, numeric-string} plus SQL queries, over a 4-event dataset in open and rotated layouts, one call each: the worker stays alive and answers " +
 		"(results or error) within 120 s; afterwards the running-query count is 0 and no goroutine whose stack lies in the query packages remains (compared by stack signature with a baseline taken before). " +
@@ -334,13 +386,18 @@ func C17() int {
 		Enumerate: func(emit func(c17ParseJob)) {
 			for _, lang := range []string{"PromQL", "SQL", "ES", "Splunk QL"} {
 				emit(c17ParseJob{Lang: lang, Prefix: nil, Depth: 0})
+				if lang != "ES" {
+					emit(c17ParseJob{Lang: lang, Nest: true})
+				}
 				for _, t := range c17Alphabet(lang) {
 					emit(c17ParseJob{Lang: lang, Prefix: []string{t}, Depth: depth[lang]})
 				}
 			}
 		},
-		Run:        c17ParseRun,
-		Key:        func(j *c17ParseJob) string { return j.Lang + "|" + strings.Join(j.Prefix, " ") },
+		Run: c17ParseRun,
+		Key: func(j *c17ParseJob) string {
+			return fmt.Sprintf("%s|%s|%v", j.Lang, strings.Join(j.Prefix, " "), j.Nest)
+		},
 		Nontrivial: func(j *c17ParseJob) bool { return false },
 	}
 	if only := os.Getenv("VERIF_C17_ONLY"); only == "" || only == "a" {
